@@ -79,7 +79,13 @@ func c06Gen(r *RNG, id string, prop string) *Case {
 	if r.Chance(1, 4) {
 		nt = r.Range(1, 6)
 	}
-	wide := prop == "C06" && r.Chance(1, 50)
+	if prop == "C06" && r.Chance(1, 25) {
+		// many more targets than any batch or channel holds, many queries (a worker per query), stragglers
+		w, nq, nt = r.Range(10, 24), r.Range(10, 30), r.Range(150, 300)
+		c.SetInt("jit", 1+r.Intn(1000000))
+		c.Tag("many-targets-jitter")
+	}
+	wide := prop == "C06" && c.Get("jit") == "" && r.Chance(1, 50)
 	if wide {
 		// an alignment wider than a genome: raw distances d/L and d/(L-1) differ by less than the nine printed decimals
 		// (1/50000 - 1/49999 ~ 4e-10), so "nearest" must be decided on the distances, not on what is printed
@@ -232,6 +238,13 @@ func c06Gen(r *RNG, id string, prop string) *Case {
 		}
 	}
 	c.Set("mode", mode).SetInt("k", k).SetInt("dn", dn).SetInt("dd", dd)
+	if prop == "C07" && measure != "tn93" && len(qn) > 1 && r.Chance(1, 6) {
+		// two query records of one name (the ID is only the first token of the header): every row still belongs to the
+		// record at its place in the file (rows are compared as sorted whole lines, so not for the rounded tn93 values)
+		qn[r.Intn(len(qn)-1)+1] = qn[0]
+		c.Set("qnames", strings.Join(qn, ","))
+		c.Tag("duplicate-query-id")
+	}
 	if measure == "tn93" && tn93NearTie(c, nt) {
 		// two different targets whose tn93 distances agree to nine decimals: their order depends on the last
 		// bits of math.Log, which no model can decide - use the exact raw measure for this case instead
